@@ -76,6 +76,12 @@ func (o *msgObj) Call(buf []byte, offs int) (int, sipsp.ErrorHdr) {
 }
 func (o *msgObj) View(v *view.Vec, op view.MsgOpt) { view.Msg(v, &o.m, op) }
 func (o *msgObj) Reset()                           { o.m.Reset() }
+func (o *msgObj) setEndInput(on bool) {
+	o.flags &^= sipsp.SIPMsgNoMoreDataF
+	if on {
+		o.flags |= sipsp.SIPMsgNoMoreDataF
+	}
+}
 func (o *msgObj) State() uint32 {
 	// section | header-line state | first-line state | pending typed sub-automaton and its state
 	return view.StMsg(&o.m) | pvState(&o.m.PV)
@@ -337,7 +343,13 @@ func (o *tokObj) View(v *view.Vec, op view.MsgOpt) {
 	view.TokParam(v, &o.cur)
 	v.Pop()
 }
-func (o *tokObj) Reset()        { o.cur.Reset(); o.done = o.done[:0] }
+func (o *tokObj) Reset() { o.cur.Reset(); o.done = o.done[:0] }
+func (o *tokObj) setEndInput(on bool) {
+	o.flags &^= sipsp.POptInputEndF
+	if on {
+		o.flags |= sipsp.POptInputEndF
+	}
+}
 func (o *tokObj) State() uint32 { return view.StTok(&o.cur) }
 
 // ---- URI parameter / header list wrappers ----
@@ -358,6 +370,12 @@ func (o *uriParamsObj) View(v *view.Vec, op view.MsgOpt) {
 	v.I("sum(vNo)", int64(o.vno))
 }
 func (o *uriParamsObj) Reset() { o.l.Reset(); o.vno = 0 }
+func (o *uriParamsObj) setEndInput(on bool) {
+	o.flags &^= sipsp.POptInputEndF
+	if on {
+		o.flags |= sipsp.POptInputEndF
+	}
+}
 func (o *uriParamsObj) State() uint32 {
 	n := o.l.N
 	if n < len(o.l.Params) {
@@ -382,6 +400,12 @@ func (o *uriHdrsObj) View(v *view.Vec, op view.MsgOpt) {
 	v.I("sum(vNo)", int64(o.vno))
 }
 func (o *uriHdrsObj) Reset() { o.l.Reset(); o.vno = 0 }
+func (o *uriHdrsObj) setEndInput(on bool) {
+	o.flags &^= sipsp.POptInputEndF
+	if on {
+		o.flags |= sipsp.POptInputEndF
+	}
+}
 func (o *uriHdrsObj) State() uint32 {
 	n := o.l.N
 	if n < len(o.l.Hdrs) {
